@@ -401,6 +401,23 @@ def sigv4_gen():
     out.append('End SigV4Gen.')
     out.append('')
     out.append('(* source facts *)')
+    # the HTTP client only ever sends requests the adapter prepared (and signed): it is not told to follow redirects, and
+    # the response hook turns every non-success answer (3xx included) into an exception
+    ctor = [n for n in ast.walk(pyast.find_func(cls, '__init__')) if isinstance(n, ast.Call) and pyast.unparse(n.func) == 'httpx.AsyncClient']
+    need(len(ctor) == 1 and not ctor[0].args
+         and sorted((k.arg, pyast.unparse(k.value)) for k in ctor[0].keywords)
+         == [('event_hooks', "{'response': [_raise_for_status_hook]}"), ('timeout', 'None')],
+         'S3Compatible.__init__: httpx.AsyncClient is not constructed with exactly timeout=None and the raise-for-status response hook')
+    hook = pyast.find_func(tree, '_raise_for_status_hook')
+    need(len(hook.body) == 1 and isinstance(hook.body[0], ast.Try)
+         and [pyast.unparse(x) for x in hook.body[0].body] == ['response.raise_for_status()']
+         and len(hook.body[0].handlers) == 1 and pyast.unparse(hook.body[0].handlers[0].type) == 'httpx.HTTPStatusError'
+         and isinstance(hook.body[0].handlers[0].body[-1], ast.Raise) and hook.body[0].handlers[0].body[-1].exc is None
+         and not hook.body[0].orelse and not hook.body[0].finalbody,
+         '_raise_for_status_hook: does not raise for every non-success response')
+    need(sum(1 for n in ast.walk(tree) if isinstance(n, ast.Call) and pyast.unparse(n.func) == 'self._client.send') == 2,
+         'requests are sent from places other than _make_request/_make_streaming_request')
+    out.append('Definition client_sends_only_prepared_requests : bool := true.')
     out.append('Definition stream_digest_reads_to_eof_then_rewinds : bool := true.')
     # the AWS endpoint
     s3 = pyast.module(S3)
